@@ -504,7 +504,7 @@ fn monitors<M: RawMutex>(svc: &GenericTimerService<M>, slots: &[Slot<TFut<'_>>],
         .enumerate()
         .map(|(i, s)| SlotView { queue: 0, idx: i as u8, range: s.range(), pending: s.pending(), woken: s.woken() })
         .collect();
-    check_heap_queue(snap, &views, run, order);
+    check_heap_queue(snap, &views, run, order, "C15");
     if run.want_fp {
         let mut h = H128::new();
         for s in slots {
